@@ -96,6 +96,119 @@ def trim {κ τ : Type} (r : Raster κ τ) (excludes : List Num) (name : String 
 def crop {κ τ : Type} (zones values : Raster κ τ) (ids : List Num) (name : String := "crop") : Window κ τ :=
   window values (cropBounds zones ids) name
 
+/-! ### the shape of the source, as read from the `ast` by harness/facts_trim.py (Gen/TrimFacts.lean)
+
+  The generated constants say *which* comparison the kernels use, in which direction and over which range
+  each scan runs, and what the public wrappers do to the value / id list on its way to the kernel.  The
+  functions below interpret such a shape; Props/C18.lean proves that the shapes found in the current source
+  are the canonical ones and that their interpretation is the hand model above, and states the property
+  for the interpretation of the generated shapes.  An unrecognised piece of source is `.other "<text>"`
+  (or `ok := false`), which no theorem accepts. -/
+
+/-- the test applied to a listed value `e` and a cell `val` -/
+inductive Match where
+  | eq                      -- `e == val`  (either way round)
+  | eqOrBothNan             -- `e == val or (np.isnan(e) and np.isnan(val))`
+  | other (src : String)    -- anything else, e.g. a call `np.isclose(e, val)`
+  deriving DecidableEq, Repr, Inhabited
+
+inductive Axis where
+  | rows | cols | other
+  deriving DecidableEq, Repr, Inhabited
+
+/-- `range(n)` / `range(0, n)` is `up`, `range(n - 1, -1, -1)` is `down`: the full axis either way -/
+inductive Dir where
+  | up | down | other (src : String)
+  deriving DecidableEq, Repr, Inhabited
+
+/-- what a match means: crop stops at a cell that matches an id, trim at a cell that matches no excluded value -/
+inductive Polarity where
+  | hitIfMatched | hitIfUnmatched | other
+  deriving DecidableEq, Repr, Inhabited
+
+structure ScanShape where
+  /-- `cur = 0; done = False; for a in <range>: if done: break; cur = a; for b in <full other axis>: val = data[..]; …` -/
+  ok : Bool
+  axis : Axis
+  dir : Dir
+  /-- the inner loop visits every cell `data[y, x]` of that row / column -/
+  innerFull : Bool
+  mtch : Match
+  polarity : Polarity
+  deriving DecidableEq, Repr, Inhabited
+
+structure KernelShape where
+  ok : Bool
+  /-- the four scans in the order of the returned tuple `(top, bottom, left, right)` -/
+  scans : List ScanShape
+  /-- `if not scan_complete: return 0, -1, 0, -1` right after the first scan -/
+  emptyEarly : Bool
+  deriving DecidableEq, Repr, Inhabited
+
+/-- what a wrapper does to the caller's value / id list before the kernel sees it -/
+inductive ListCast where
+  | none | other (src : String)
+  deriving DecidableEq, Repr, Inhabited
+
+structure WrapperShape where
+  ok : Bool
+  /-- the kernel that is called -/
+  kernel : String
+  /-- index of the parameter whose `.data` is the kernel's first argument -/
+  dataParam : Nat
+  /-- index of the parameter handed over as the kernel's second argument, and what is done to it before -/
+  listParam : Nat
+  listCast : ListCast
+  /-- index of the parameter that is sliced `[top: bottom + 1, left: right + 1]` -/
+  slicedParam : Nat
+  /-- the slice is exactly `[top: bottom + 1, left: right + 1]` of the kernel's four results -/
+  sliceOk : Bool
+  /-- `.name = name` is set on the slice, which is returned -/
+  named : Bool
+  deriving DecidableEq, Repr, Inhabited
+
+def matchS : Match → Num → Num → Bool
+  | .eq, e, v => ieeeEq e v
+  | .eqOrBothNan, e, v => ieeeEq e v || (e == Num.nan && v == Num.nan)
+  | .other _, _, _ => false
+
+def hitS (m : Match) (p : Polarity) (listed : List Num) (v : Num) : Bool :=
+  match p with
+  | .hitIfMatched => listed.any (fun e => matchS m e v)
+  | .hitIfUnmatched => !(listed.any (fun e => matchS m e v))
+  | .other => false
+
+def dirRange : Dir → Nat → List Nat
+  | .up, n => List.range n
+  | .down, n => (List.range n).reverse
+  | .other _, _ => []
+
+def scanS (s : ScanShape) (rows cols : Nat) (cell : Nat → Nat → Num) (listed : List Num) : Nat × Bool :=
+  let hit := fun y x => hitS s.mtch s.polarity listed (cell y x)
+  match s.axis with
+  | .rows => scan (dirRange s.dir rows) (rowHit cols hit)
+  | .cols => scan (dirRange s.dir cols) (colHit rows hit)
+  | .other => (0, false)
+
+/-- the kernel as its shape describes it -/
+def boundsS (k : KernelShape) (rows cols : Nat) (cell : Nat → Nat → Num) (listed : List Num) : Bounds :=
+  match k.scans with
+  | [t, b, l, r] =>
+    let st := scanS t rows cols cell listed
+    if k.emptyEarly && !st.2 then ⟨0, -1, 0, -1⟩ else
+      ⟨st.1, (scanS b rows cols cell listed).1, (scanS l rows cols cell listed).1, (scanS r rows cols cell listed).1⟩
+  | _ => ⟨0, -1, 0, -1⟩
+
+def castS : ListCast → List Num → List Num
+  | .none, l => l
+  | .other _, _ => []
+
+/-- `trim` / `crop` as the shapes of wrapper and kernel describe them: the list goes through the wrapper's
+    cast, the kernel scans `data`, the window is cut from `sliced` -/
+def windowS {κ τ : Type} (k : KernelShape) (w : WrapperShape) (data sliced : Raster κ τ) (listed : List Num)
+    (name : String) : Window κ τ :=
+  window sliced (boundsS k data.rows data.cols data.cell (castS w.listCast listed)) name
+
 /-! ### the unrepaired kernels (pinned commit), kept to state what they do where they differ -/
 
 /-- `_trim` before fixes/D5: `e == val` -/
